@@ -353,7 +353,7 @@ func c17Counters(c *Ctx) {
 						}
 					}
 				}
-				if al, isAlloc := cc.Common().Args[0].(*ssa.Alloc); isAlloc && fn.Name() == "newExecution" {
+				if al, isAlloc := cc.Common().Args[0].(*ssa.Alloc); isAlloc && canonName(fn) == "newExecution" {
 					field = al.Comment
 				}
 				if _, tracked := allowed[field]; !tracked {
